@@ -128,7 +128,11 @@ func (s MsgServer) AddDelegate(c context.Context, msg *types.MsgAddDelegate) (*t
 
 	delegateCoin := types.NewDelegateAmount(msg.Amount.Amount.Sub(slashAmount.Amount))
 
-	oracle.DelegateAmount = oracle.DelegateAmount.Add(delegateCoin.Amount)
+	newDelegateAmount, err := oracle.DelegateAmount.SafeAdd(delegateCoin.Amount)
+	if err != nil {
+		return nil, types.ErrDelegateAmountAboveMaximum
+	}
+	oracle.DelegateAmount = newDelegateAmount
 	if oracle.DelegateAmount.Sub(threshold.Amount).IsNegative() {
 		return nil, types.ErrDelegateAmountBelowMinimum
 	}
